@@ -20,7 +20,7 @@ EXPLANATION = ("Gaussian._sample == mean + B e with sqrtprec B == I on every pat
                "sample after parameter reassignment; GMRF draws: B B^T == pseudo-inverse of the precision (numeric, closed).")
 ASSUMPTIONS = ["numpy / scipy generators sample the law they document (assumed); an affine image mean + B e of a standard normal vector is N(mean, B B^T) (lemma L-affine, cited)",
                "statistical agreement of moments is a consequence via the lemmas, not measured",
-               "ModifiedHalfNormal: the gamma- and normal-proposal rejection schemes are under contract (envelope + proportionality, threshold read off the accepting path); the negative-gamma scheme (non-polynomial change of variables) and the scheme selection are bounded stand-ins (Kolmogorov distance of 4000 draws)"]
+               "ModifiedHalfNormal: all three rejection schemes are under contract for proportionality (proposal density x acceptance / target density constant; threshold read off the accepting path, change of variables by term differentiation); the envelope clause (threshold <= 0) is proved for the gamma and normal proposals and only checked on a grid by the numeric twin for the negative-gamma scheme (transcendental in T); the scheme selection by the constants K1, K2 is a bounded stand-in (Kolmogorov distance of 4000 draws)"]
 
 
 def _normal_queue(c, shape):
@@ -245,11 +245,13 @@ def mhn_rejection(c, scheme):
         al = c.real('alpha', pos=True)
     be = c.real('beta', pos=True)
     ga = c.real('gamma', pos=True)
+    if scheme == 'negative': ga = -ga
     rng = RejectionRng(c)
     if not c.sym:
         return _mhn_native(c, d, scheme, float(al), float(be), float(ga))
     try:
         if scheme == 'gamma': X = d._MHN_sample_gamma_proposal(al, be, ga, rng)
+        elif scheme == 'negative': X = d._MHN_sample_negative_gamma(al, be, ga, rng)
         else: X = d._MHN_sample_normal_proposal(al, be, ga, None, rng)
     except _Retry:
         core.ST.pc and None
@@ -268,7 +270,10 @@ def mhn_rejection(c, scheme):
     Xt = core.T(X); vt = core.T(v)
     c.holds('returned_value_is_the_accepted_proposal', True)
     c.holds('accepted_values_are_positive', X > 0)
-    c.holds('envelope:acceptance_threshold_is_never_positive', a <= 0)
+    if scheme != 'negative':
+        c.holds('envelope:acceptance_threshold_is_never_positive', a <= 0)
+    # (negative-gamma scheme: the envelope val2*T - beta X^2 + gamma X <= 0 with X = m T^v is transcendental in T; it is checked by
+    #  the numeric twin on a grid only - bounded stand-in for that clause, listed in the assumptions)
     # densities as log terms in the proposal variable v (T for the gamma proposal with X = sqrt(T), X itself for the normal proposal)
     if kind == 'gamma': logq = (p1 - 1) * v.log() - v / p2
     else: logq = -((v - p1) * (v - p1)) / (2 * p2 * p2)
@@ -284,46 +289,53 @@ def mhn_rejection(c, scheme):
 
 
 def _mhn_native(c, d, scheme, al, be, ga):
-    """bounded numeric stand-in of the same two clauses on a grid of x, with the real function's own acceptance decision"""
+    """bounded numeric stand-in of the same two clauses on a grid of the proposal variable v (T for the gamma-type proposals, X for
+    the normal one), with the real function's own acceptance decision and its own map v -> X"""
     import math
     class Rng:
-        def __init__(s, x, u): s.x = x; s.u = u; s.n = 0; s.law = None
+        def __init__(s, v, u): s.v = v; s.u = u; s.n = 0; s.law = None
         def _r(s):
             s.n += 1
             if s.n > 1: raise _Retry()
-        def gamma(s, shape, scale): s._r(); s.law = ('gamma', shape, scale); return s.x ** 2
-        def normal(s, mu, sd): s._r(); s.law = ('normal', mu, sd); return s.x
+        def gamma(s, shape, scale): s._r(); s.law = ('gamma', shape, scale); return s.v
+        def normal(s, mu, sd): s._r(); s.law = ('normal', mu, sd); return s.v
         def uniform(s): return s.u
-    def accepted(x, u):
-        r = Rng(x, u)
+    def run(v, u):
+        r = Rng(v, u)
         try:
-            (d._MHN_sample_gamma_proposal(al, be, ga, r) if scheme == 'gamma' else d._MHN_sample_normal_proposal(al, be, ga, None, r))
-            return True, r.law
+            if scheme == 'gamma': X = d._MHN_sample_gamma_proposal(al, be, ga, r)
+            elif scheme == 'negative': X = d._MHN_sample_negative_gamma(al, be, ga, r)
+            else: X = d._MHN_sample_normal_proposal(al, be, ga, None, r)
+            return True, r.law, float(X)
         except _Retry:
-            return False, r.law
-    xs = np.linspace(0.05, 6.0, 60); consts = []; worst = 0.0
-    for x in xs:
-        # the threshold a(x) that log U is compared with, by bisection on log u (the acceptance set is {log u < a(x)})
-        ok1, law = accepted(x, 1.0)
+            return False, r.law, None
+    vs = np.linspace(0.05, 6.0, 60) if scheme == 'normal' else np.linspace(0.02, 12.0, 80)
+    consts = []; clipped = False
+    for v in vs:
+        ok1, law, _ = run(v, 1.0)
         if law is None: continue
-        if ok1: a = 0.0; worst = max(worst, 1.0)      # accepted even at u = 1: the threshold is positive there
+        if ok1: a = 0.0; clipped = True                 # accepted even with log U = 0: the threshold is positive there
         else:
             lo, hi = -700.0, 0.0
-            if not accepted(x, math.exp(lo))[0]: continue          # rejected outright (outside the support)
+            if not run(v, math.exp(lo))[0]: continue     # rejected outright (outside the support)
             for _ in range(80):
                 mid = 0.5 * (lo + hi)
-                if accepted(x, math.exp(mid))[0]: lo = mid
+                if run(v, math.exp(mid))[0]: lo = mid
                 else: hi = mid
             a = lo
-        p = math.exp(a)
-        if law[0] == 'gamma': logq = (2 * law[1] - 1) * math.log(x) - x * x / law[2]
-        else: logq = -((x - law[1]) ** 2) / (2 * law[2] ** 2)
-        logf = (al - 1) * math.log(x) - be * x * x + ga * x
+        tiny = math.exp(-700.0); h = 1e-6 * max(1.0, v)
+        X = run(v, tiny)[2]; Xp = run(v + h, tiny)[2]; Xm = run(v - h, tiny)[2]
+        if X is None or Xp is None or Xm is None or X <= 0: continue
+        dX = (Xp - Xm) / (2 * h)
+        if law[0] == 'gamma': logq = (law[1] - 1) * math.log(v) - v / law[2]
+        else: logq = -((v - law[1]) ** 2) / (2 * law[2] ** 2)
+        logf = (al - 1) * math.log(X) - be * X * X + ga * X + math.log(abs(dX))
         consts.append(logq + a - logf)
     consts = np.array(consts)
-    c.holds('envelope:acceptance_threshold_is_never_positive', worst == 0.0, note='the proposal is accepted with log U = 0 at some x: the acceptance probability is clipped at one there')
-    c.holds('proportionality:proposal_density_times_acceptance_over_target_density_is_constant', bool(np.ptp(consts) < 1e-6 * max(1.0, abs(consts).max())),
-            note=f"log q + log P(accept) - log f ranges over {consts.min():.4g} .. {consts.max():.4g} on x in (0, 6]")
+    c.holds('enough_grid_points_evaluated', len(consts) >= 20, note=str(len(consts)))
+    c.holds('envelope:acceptance_threshold_is_never_positive', not clipped, note='the proposal is accepted with log U = 0 at some point: the acceptance probability is clipped at one there')
+    c.holds('proportionality:proposal_density_times_acceptance_over_target_density_is_constant', bool(np.ptp(consts) < 1e-5 * max(1.0, abs(consts).max())),
+            note=f"log q + log P(accept) - log f ranges over {consts.min():.6g} .. {consts.max():.6g} on the grid")
 
 
 def mhn_law_native(c, which):
@@ -371,7 +383,7 @@ def jobs(tier):
             if bc == 'periodic': continue          # 2D periodic sampling is refused by the library (NotImplementedError): nothing to specify
             J.append(Job(f'GMRF._sample:covariance2D:{bc}:order={order}', lambda c, bc=bc, o=order: gmrf_cov(c, bc, o, 3 if o < 2 else 4, True), 'B', [f'{D}._gmrf:GMRF._sample'], nnum=1))
     MH = [f'{D}._modifiedhalfnormal:ModifiedHalfNormal._MHN_sample_gamma_proposal', f'{D}._modifiedhalfnormal:ModifiedHalfNormal._MHN_sample_normal_proposal']
-    for scheme in ('gamma', 'normal'):
+    for scheme in ('gamma', 'normal', 'negative'):
         J.append(Job(f'MHN.rejection_scheme:{scheme}_proposal', lambda c, s=scheme: mhn_rejection(c, s), 'Pbox', MH, timeout=600))
     for which in ('negative_gamma', 'positive_gamma_selection'):
         J.append(Job(f'MHN._MHN_sample:law:{which}', lambda c, w=which: mhn_law_native(c, w), 'B', [f'{D}._modifiedhalfnormal:ModifiedHalfNormal._MHN_sample', f'{D}._modifiedhalfnormal:ModifiedHalfNormal._MHN_sample_negative_gamma', f'{D}._modifiedhalfnormal:ModifiedHalfNormal._MHN_sample_positive_gamma_1'], nnum=3 if q else 12))
